@@ -498,6 +498,36 @@ class PPlain(State):
 """
 
 
+def generic_child_probes(R: Recorder, N: Any) -> None:
+    """a generic State that hands its type variable on to a generic base (`class Labeled[T](Box[T])`): its specialisation is - by every
+    typing rule - an instance of the base specialised the same way, like a non-generic subclass of that specialisation is"""
+    N.define("class Labeled[T](Box[T]):\n    label: str = ''\nclass IntBox(Box[int]):\n    pass\nclass Deep[T](Labeled[T]):\n    deep: bool = False\n"
+             "class SeqChild[T](Box[Sequence[T]]):\n    pass\nclass BoxHolder(State):\n    box: Box[int]\n    boxes: Sequence[Box[int]] = ()\n    seqbox: Box[Sequence[int]] | None = None\n")
+    ns = N.ns
+    probes: list[tuple[str, str, bool]] = [
+        ("Box[int]", "BoxHolder(box=Box[int](v=1))", True), ("non-generic subclass", "BoxHolder(box=IntBox(v=1))", True), ("generic child", "BoxHolder(box=Labeled[int](v=1, label='one'))", True),
+        ("generic grandchild", "BoxHolder(box=Deep[int](v=1))", True), ("generic child in a sequence", "BoxHolder(box=Box[int](v=0), boxes=[Labeled[int](v=1), IntBox(v=2)])", True),
+        ("child of a container-specialised base", "BoxHolder(box=Box[int](v=0), seqbox=SeqChild[int](v=[1, 2]))", True),
+        ("generic child, other argument", "BoxHolder(box=Labeled[str](v='x'))", False), ("generic grandchild, other argument", "BoxHolder(box=Deep[str](v='x'))", False),
+        ("child of a container-specialised base, other argument", "BoxHolder(box=Box[int](v=0), seqbox=SeqChild[str](v=['x']))", False), ("unspecialised child", "BoxHolder(box=Labeled(v='x'))", None),
+    ]
+    for label, expr, conforms in probes:
+        case = {"generic_child": label}
+        try:
+            status: tuple[str, Any] = ("ok", eval(expr, ns))  # noqa: S307
+        except Exception as exc:  # noqa: BLE001
+            status = ("raised", exc)
+        R.case(case, nontrivial=True)
+        R.count("generic_child_probes")
+        where = {"top": "generic:Box", "at": "generic:Box", "origin": "generic-child"}
+        if conforms is None:
+            R.monitor("accepts-conforming", None)  # an unspecialised generic where a specialisation is expected: unspecified
+        elif conforms:
+            R.monitor("accepts-conforming", status[0] == "ok", where={**where, "kind": "rejected-conforming", "error": type(status[1]).__name__ if status[0] != "ok" else None}, detail=f"{label}: {expr} raised {status[1]!r}", case=case)
+        else:
+            R.monitor("rejects-violating", status[0] != "ok", where={**where, "kind": "accepted-violating"}, detail=f"{label}: {expr} was accepted -> {status[1]!r}", case=case)
+
+
 def postponed_annotation_probes(R: Recorder) -> None:
     """a module that postpones its annotations (`from __future__ import annotations`, quoted names): every annotation reaches the library
     as a string, also those that mention the type parameters of a generic State"""
@@ -573,6 +603,7 @@ def run(R: Recorder, tier: str, seed: int, shard: int, nshards: int) -> None:
         same_named_subclass_probes(R)
         self_reference_probes(R)
         postponed_annotation_probes(R)
+        generic_child_probes(R, Runner(R).N)
         alias_spelling_probes(R, Runner(R).N)
     depth = 1 if tier == "quick" else 2
     R.flags["exhaustive_core"] = f"every annotation term up to depth {depth} over the vocabulary x (conforming, single-position-broken, 70 hostile battery values, omitted)"
@@ -615,6 +646,9 @@ def run(R: Recorder, tier: str, seed: int, shard: int, nshards: int) -> None:
 def replay(R: Recorder, case: dict[str, Any]) -> None:
     if "same_named_subclass" in case:
         same_named_subclass_probes(R)
+        return
+    if "generic_child" in case:
+        generic_child_probes(R, Runner(R).N)
         return
     if "postponed_annotations" in case:
         postponed_annotation_probes(R)
